@@ -49,7 +49,7 @@ func flipCase(s string, i int) string {
 	return string(b)
 }
 
-var c15Words = []string{"abc", "ab", "bc", "select", "SELECT", "Sel", "x", "union all", "a", "é", "<script", "1=1", "zz", "abcabc"}
+var c15Words = []string{"abc", "ab", "bc", "select", "SELECT", "Sel", "x", "union all", "a", "é", "<script", "1=1", "zz", "abcabc", "É", "\u212a", "ÀB"}
 
 // perturb derives an input around the decision boundary of (s).
 func perturb(t *rapid.T, s string) string {
@@ -113,7 +113,7 @@ func genC15(t *rapid.T) *C15Case {
 	case "pm":
 		c.Form = rapid.SampledFrom([]string{"pm", "pm", "pmFromDataset", "pmFromFile"}).Draw(t, "form")
 		n := rapid.IntRange(1, 8).Draw(t, "nphrases")
-		pool := []string{"abc", "ABC", "ab", "bcd", "select", "Sel", "x", "xy", "union", "a", "zz", "abcd", "cd", "q", "longerphrase", "é", "1=1"}
+		pool := []string{"abc", "ABC", "ab", "bcd", "select", "Sel", "x", "xy", "union", "a", "zz", "abcd", "cd", "q", "longerphrase", "é", "1=1", "É", "\u212a", "ÀB"}
 		for i := 0; i < n; i++ {
 			c.Phrases = append(c.Phrases, rapid.SampledFrom(pool).Draw(t, "phrase"))
 		}
